@@ -6,8 +6,9 @@
     before any frame is produced;
   * a Transfer message without data octets makes `_recv_msg` raise `AttributeError`
     (`msg.payload.payload.load` on `NoPayload`);
-  * a bundle PDU of 2^20 octets or more is refused (`ValueError`); in the segmented branch the
-    20-bit length still wraps (`BitField` masks) when `mtu - 4 ≥ 2^20`;
+  * a bundle PDU of 2^20 octets or more is refused (`ValueError`); segment data is capped at
+    2^20 - 15 octets so that the 20-bit length never wraps in what the agent builds (the codec
+    itself still masks: `mkMsg`);
   * the dissector accepts truncated messages (slices are clamped) and a declared length smaller
     than the hints (negative Python slice index).
   Not modelled (`none` = outside the model): a message header of 1..3 octets and a hint header of
@@ -170,8 +171,11 @@ def segLoop : Nat → Bytes → Nat → Nat → Nat → List (Nat × Bool × Byt
 /-- `len(msg_head)`: 4 octets of head, 6 of the total-length hint. -/
 def headLenSeg : Nat := 10
 
-/-- `remain_size = mtu - len(msg_head) - 8`, a Python int. -/
-def remainSize (mtu : Nat) : Int := (mtu : Int) - headLenSeg - 8
+/-- `remain_size = min(mtu - len(msg_head) - 8, 2**20 - 1 - (len(msg_head) - 4) - 8)`, a Python
+    int: what the MTU leaves for data, capped so that hints, transfer header and data fit the
+    20-bit message length. -/
+def remainSize (mtu : Nat) : Int :=
+  min ((mtu : Int) - headLenSeg - 8) (2 ^ 20 - 1 - ((headLenSeg : Int) - 4) - 8)
 
 /-- What iterating `_send_transfer(item)` gives. -/
 inductive SendResult
